@@ -176,6 +176,13 @@ def derivative_call(cls, htree):
             kws = sorted(k.arg for k in c.keywords)
             if len(c.args) != 2:
                 raise TranslateError("derivative: positional arguments of the out-of-range call")
+            # each keyword is handed the method's own parameter: n=order, epsilon=epsilon,
+            # scale=scale (not a constant, not another name)
+            want = dict(n="order", epsilon="epsilon", scale="scale")
+            for k in c.keywords:
+                if k.arg in want and not (isinstance(k.value, ast.Name) and
+                                          k.value.id == want[k.arg]):
+                    kws = ["<%s is not passed through>" % k.arg]
     if kws is None:
         raise TranslateError("derivative: out-of-range helpers.derivative call not found")
     order = None
@@ -191,6 +198,36 @@ def derivative_call(cls, htree):
     if order is None:
         raise TranslateError("helpers.derivative: default order not found")
     return kws, order, bounds_default_none
+
+
+def resolution(cls):
+    """extendInterpolationTable: resolution = <c> * (self._rangeMax - self._rangeMin) and both
+    point counts are capped by int(<width> / resolution)"""
+    fn = _method(cls, "extendInterpolationTable")
+    c = None
+    caps = 0
+    for st in ast.walk(fn):
+        if isinstance(st, ast.Assign) and len(st.targets) == 1 and \
+                isinstance(st.targets[0], ast.Name):
+            name, v = st.targets[0].id, st.value
+            if name == "resolution" and isinstance(v, ast.BinOp) and isinstance(v.op, ast.Mult) \
+                    and isinstance(v.left, ast.Constant) and isinstance(v.right, ast.BinOp) and \
+                    isinstance(v.right.op, ast.Sub) and _is_self_attr(v.right.left, "_rangeMax") \
+                    and _is_self_attr(v.right.right, "_rangeMin"):
+                c = Fraction(repr(v.left.value))
+            if name in ("pointsMin", "pointsMax") and isinstance(v, ast.Call) and \
+                    isinstance(v.func, ast.Name) and v.func.id == "min" and len(v.args) == 2:
+                inner = v.args[1]
+                if isinstance(inner, ast.Call) and isinstance(inner.func, ast.Name) and \
+                        inner.func.id == "int" and isinstance(inner.args[0], ast.BinOp) and \
+                        isinstance(inner.args[0].op, ast.Div) and \
+                        isinstance(inner.args[0].right, ast.Name) and \
+                        inner.args[0].right.id == "resolution":
+                    caps += 1
+    if c is None or caps != 2:
+        raise TranslateError("extendInterpolationTable: resolution cap not recognised")
+    uses_arange = bool(_calls(fn, "arange"))
+    return c, uses_arange
 
 
 def generate(src, hsrc):
@@ -212,6 +249,7 @@ def generate(src, hsrc):
         return "[" + "; ".join("(%d)" % int(v) for v in row) + "]%Z"
     from_filtered, flag_ok = interpolate_facts(cls)
     fa, fb, skip = adaptive_counts(cls)
+    res, uses_arange = resolution(cls)
     lines = [
         "(* generated from src/WallGo/interpolatableFunction.py and helpers.py -- do not edit *)",
         "From Coq Require Import List ZArith QArith Bool.",
@@ -234,5 +272,8 @@ def generate(src, hsrc):
         "Definition src_append_frac_notable : Q := (%d # %d)." % (fb.numerator, fb.denominator),
         "(* no table and all pending points equal: the update returns without building a table *)",
         "Definition src_skip_single_point : bool := %s." % _bool(skip),
+        "(* an extension appends at most int(width / (c * table width)) points, built by linspace *)",
+        "Definition src_resolution : Q := (%d # %d)." % (res.numerator, res.denominator),
+        "Definition src_extend_no_arange : bool := %s." % _bool(not uses_arange),
     ]
     return "\n".join(lines) + "\n"
